@@ -1,7 +1,13 @@
 import TempestVerif.Drv.Util
 import TempestVerif.Model.Warmup
+import TempestVerif.Model.Pipeline
 /- line-protocol handlers of property C11.
    warm.Q | warm.F  bs=<n>:<nfin>;<n>:<nfin>;…   → the recorded linear-space evidences Z_1,…,Z_k
+   warm.rep  fl=<string of 0/1, 1 = finite draw> picks=<nat list>
+       → <tags after the replacement>;<finiteness flags after the replacement>;<logz committed (Float hex)>
+     runs `Model.Pipeline.warmup` (the replacement step the pipeline theorems are about) on draws tagged 0..n-1,
+     reweighting-step evidence 0
+   (whole warm-up + annealing iterations of the pipeline model: `pipe.F` of Drv/C01)
 -/
 namespace Drv.C11
 open Drv Model.Warmup
@@ -18,10 +24,21 @@ def warm (α : Type) [Sc α] [Codec α] (args : List (String × String)) : Strin
   | some bs => showList Codec.shw ((run (α := α) batchZ [] bs).map (·.2))
   | none => "bad-op"
 
+def parseFlags? (s : String) : Option (List (Option Float)) :=
+  s.toList.mapM fun c => if c == '1' then some (some 0.0) else if c == '0' then some none else none
+
+def rep (args : List (String × String)) : Option String := do
+  let fl ← (getArg args "fl").bind parseFlags?
+  let picks ← (getArg args "picks").bind parseNatList?
+  let t : Model.Pipeline.Tape Float := ⟨List.range fl.length, fl, picks, [], []⟩
+  let (tags, ls, lz) := Model.Pipeline.warmup t 0.0
+  pure (showList toString tags ++ ";" ++ String.ofList (ls.map fun v => if v.isSome then '1' else '0') ++ ";" ++ showFloat lz)
+
 def handle (cmd : String) (args : List (String × String)) : Option String :=
   match cmd with
   | "warm.Q" => some (warm Rat args)
   | "warm.F" => some (warm Float args)
+  | "warm.rep" => some ((rep args).getD "bad-op")
   | _ => none
 
 end Drv.C11
